@@ -98,11 +98,11 @@ def is_w3c_prefix(prefix: str) -> bool:
     >>> is_w3c_prefix("GO:")
     False
     """
-    return bool(NCNAME_RE.match(prefix))
+    return bool(NCNAME_RE.fullmatch(prefix))
 
 
 def _is_w3c_luid(luid: str) -> bool:
-    return bool(LOCAL_UNIQUE_IDENTIFIER_RE.match(luid))
+    return bool(LOCAL_UNIQUE_IDENTIFIER_RE.fullmatch(luid))
 
 
 def is_w3c_curie(curie: str) -> bool:
